@@ -1832,6 +1832,7 @@ impl Engine for E3 {
                         vec![Some((X(b), X(b.max(ask2))))],
                     ],
                     by_symbol: false,
+                    via_serde: false,
                 };
                 costs = Vec::new();
                 prefix = vec![
@@ -1859,6 +1860,7 @@ impl Engine for E3 {
                 dates: vec![100, 101, 102, 103, 104, 105],
                 rows: (0..6).map(|_| vec![Some((X(px), X(px)))]).collect(),
                 by_symbol: false,
+                    via_serde: false,
             };
             costs = Vec::new();
             prefix = vec![
